@@ -5,6 +5,7 @@ package main
 import (
 	"fmt"
 	"math/big"
+	"strings"
 
 	"github.com/NethermindEth/juno/core/crypto"
 	"github.com/NethermindEth/juno/core/felt"
@@ -20,6 +21,8 @@ type Tamper struct {
 	Root  string `json:"-"` // hex
 	// NoOracle: the root was replaced by the root of the forged chain; only model-vs-code is compared
 	NoOracle bool `json:"-"`
+	// KeyPlus: the key offered to the real verifier is the felt key + 2^251 (same 251 low bits)
+	KeyPlus bool `json:"key_plus_2_251"`
 }
 
 func bumpHex(h string) string {
@@ -162,6 +165,38 @@ func tampers(r *lib.RNG, trie2 bool, hf crypto.HashFn, p Proof, key string, root
 		}
 	}
 	if trie2 {
+		// a hash child replaced by the node it stands for, EMBEDDED in its parent (Go callers can build
+		// such sets; hashes are unchanged), with and without a cached hash flag on the embedded node
+		idx := map[string]int{}
+		for i := range p {
+			idx[p[i].Key] = i
+		}
+		for i := range p {
+			for ci, cname := range childName[p[i].Kind] {
+				c := *children(&p[i])[ci]
+				j, ok := idx[c.F]
+				if c.tag() != 'h' || !ok || j == i {
+					continue
+				}
+				emb := p[j]
+				emb.Cache = ""
+				embp := &emb
+				emit("embed-"+cname+"-plain", i, with(i, false, func(n *PNode) { *children(n)[ci] = Child{T: "p", F: c.F, Emb: embp} }))
+				emit("embed-"+cname+"-cached", i, with(i, false, func(n *PNode) { *children(n)[ci] = Child{T: "e", F: c.F, Emb: embp} }))
+			}
+		}
+	}
+	// one key twice in the node list: OrderedSet.Put keeps the LAST node
+	if len(p) > 0 {
+		i := r.Intn(len(p))
+		bad := p[i]
+		bad.Cache = ""
+		cc := children(&bad)[0]
+		*cc = bumpChild(*cc)
+		emit("duplicate-key-altered-copy-last", i, append(p.clone(), bad))
+		emit("duplicate-key-altered-copy-first", i, append(Proof{bad}, p...))
+	}
+	if trie2 {
 		q := p.clone()
 		for i := range q {
 			q[i].Cache = ""
@@ -191,6 +226,10 @@ func tampers(r *lib.RNG, trie2 bool, hf crypto.HashFn, p Proof, key string, root
 		}
 		seen[d] = true
 		out = append(out, Tamper{Kind: "key-flip-bit", Node: -1, Proof: p, Key: flipBit(key, d), Root: rootHex})
+	}
+	// the felt key + 2^251: the same 251 low bits, another felt (only for keys < 2^196, so that the sum is a felt)
+	if strings.HasPrefix(key, strings.Repeat("0", 56)) {
+		out = append(out, Tamper{Kind: "key-plus-2^251", Node: -1, Proof: p, Key: key, Root: rootHex, KeyPlus: true})
 	}
 	// the root is altered
 	out = append(out, Tamper{Kind: "root-changed", Node: -1, Proof: p, Key: key, Root: bumpHex(rootHex)})
